@@ -115,6 +115,27 @@ pub fn run_c04(out: &mut Out, tier: &str, seed: u64) {
         let text = gen_text(&bshape, &mut rng, (i % 3) as u8, 0);
         cmp::<Borrowed>(out, "Borrowed", &text);
     }
+    // the enumerated number grammar (well-formed and damaged literals) through the numeric targets, bare and in containers
+    for (k, lit) in gen::number_grammar().into_iter().enumerate() {
+        if tier != "thorough" && k % 2 == 1 {
+            continue;
+        }
+        cmp::<i128>(out, "i128", &lit);
+        cmp::<u128>(out, "u128", &lit);
+        cmp::<i64>(out, "i64", &lit);
+        cmp::<u64>(out, "u64", &lit);
+        cmp::<f64>(out, "f64", &lit);
+        cmp::<i8>(out, "i8", &lit);
+        let w = format!("[{lit}]");
+        cmp::<Vec<i128>>(out, "Vec<i128>", &w);
+        cmp::<(u128,)>(out, "(u128,)", &w);
+        cmp::<Option<Option<i64>>>(out, "Option<Option<i64>>", &lit);
+        let m = format!("{{\"{lit}\":1}}");
+        cmp::<BTreeMap<i128, u8>>(out, "BTreeMap<i128,u8>", &m);
+        cmp::<BTreeMap<u64, u8>>(out, "BTreeMap<u64,u8>", &m);
+        let e = format!("{{\"New\":{lit}}}");
+        cmp::<Ext>(out, "Ext", &e);
+    }
     // borrowed strings behind serde's buffering containers
     let tag = |vs: &[&'static str]| Shape::Enum(vs.iter().map(|v| (*v, None)).collect());
     let ub = Shape::Any;
@@ -247,6 +268,34 @@ pub fn run_c19(out: &mut Out, tier: &str, seed: u64) {
             out.count("eqreflexive");
             out.case("expect", &["equality is reflexive (repeated member names allowed)", &hex(&doc)], &if r == (true, true, true, true, true, true) { "true".to_string() } else { format!("{r:?}") }, true);
         }
+    }
+    // integers compare by value, whatever class they are stored in and however they were built
+    {
+        let mut pool: Vec<i128> = vec![0, 1, -1, i64::MIN as i128, i64::MAX as i128, i64::MAX as i128 + 1, u64::MAX as i128, u64::MAX as i128 - 1, (1i128 << 63) + 1, -(1i128 << 62), 1 << 32, -(1i128 << 32), 255, -255];
+        for _ in 0..(if tier == "thorough" { 60 } else { 16 }) {
+            let v = rng.next();
+            pool.push(v as i128);
+            pool.push((v as i64) as i128);
+            pool.push(((v >> rng.below(64)) as i64 as i128).wrapping_neg());
+        }
+        let build = |x: i128, how: usize| -> Value {
+            match how {
+                0 if x >= 0 => Value::from(x as u64),
+                0 | 1 if x >= i64::MIN as i128 && x <= i64::MAX as i128 => Value::from(x as i64),
+                _ => sonic_rs::from_str::<Value>(&x.to_string()).unwrap(),
+            }
+        };
+        for (i, &a) in pool.iter().enumerate() {
+            for (j, &b) in pool.iter().enumerate() {
+                let (va, vb) = (build(a, i % 3), build(b, j % 3));
+                let (x, y) = (va == vb, vb == va);
+                let nested = Value::from(vec![va.clone()]) == Value::from(vec![vb.clone()]);
+                let want = a == b;
+                let verdict = if x == want && y == want && nested == want { "true".to_string() } else { format!("{a} == {b}: {x} / {y} / nested {nested}, integers say {want}") };
+                out.case("expect", &["integer equality by value", &format!("{a} {b} {} {}", i % 3, j % 3)], &verdict, a != b);
+            }
+        }
+        out.count("eq integer pairs");
     }
     // equality laws on pairs of DOM values built in different ways
     let cfg = Cfg { dup_free: true, max_depth: 3, ..Cfg::default() };
